@@ -20,7 +20,8 @@ KINDS = {
     'C09': ['utxo-sbu', 'deposit-sbu', 'pending-deposit-missing', 'pending-deposit-extra', 'pending-deposit-differs',
             'pending-set-missing', 'pending-set-extra', 'pending-unreadable', 'pending-not-settled', 'selected-pending-spent',
             'died', 'timeout', 'step-error'],
-    'C10': ['deposit-missing', 'deposit-extra', 'deposit-differs', 'binding-target', 'balance-wstaking',
+    'C10': ['deposit-missing', 'deposit-extra', 'deposit-differs', 'pending-deposit-missing', 'pending-deposit-extra', 'pending-deposit-differs',
+            'binding-target', 'balance-wstaking',
             'balance-wbinding', 'balance-spendable', 'withdraw-sequence', 'withdraw-boundary', 'died', 'timeout', 'step-error'],
     'C12': ['address-used', 'address-not-listed', 'died', 'timeout', 'step-error'],
 }
